@@ -216,6 +216,8 @@ func runC17(e *env) {
 	for _, k := range hx.SortedKeys(g.feats) {
 		e.res.Histogram["construct:"+k] = g.feats[k]
 	}
+	// 5. command level: every node type, whole files
+	runC17Commands(e)
 }
 
 // an implicit print must start with a value, a unary operator or a parenthesis, and a
@@ -477,7 +479,9 @@ func c17Replay(e *env) {
 		e.res.Note("replay file has no C17 case: %v", err)
 		return
 	}
-	if rp.Case.Kind == "msg" {
+	if rp.Case.Kind == "file" {
+		c17CheckFiles(e, []c17CmdFile{{"replay.soy", rp.Case.Src, "replay"}})
+	} else if rp.Case.Kind == "msg" {
 		c17CheckMsg(e, rp.Case, "replay")
 	} else {
 		c17Check(e, []c17Pending{{c: rp.Case, hist: "replay"}})
